@@ -79,11 +79,20 @@ func (e *Env) recordUpdates() []upd {
 				upds = append(upds, upd{n, fieldOfAddr(fa).Name(), nil, vs.InCtx(n.Ctx, x.Val)})
 			}
 		case *ssa.MapUpdate:
-			if f := fieldOfLoad(x.Map); f != nil {
-				if base := fieldBaseType(x.Map); base == ai {
-					if u, ok := x.Map.(*ssa.UnOp); ok {
-						if fa, ok := u.X.(*ssa.FieldAddr); ok && isRec(fa.X) {
-							upds = append(upds, upd{n, f.Name(), sy.InCtx(n.Ctx, x.Key), sy.InCtx(n.Ctx, x.Value)})
+			// the map may have been handed to a helper as an argument (`t.addUpstream(rec.Upstream)`): follow the
+			// parameter up to the load of the record's field
+			mc, mv := rootVal(n.Ctx, x.Map)
+			if f := fieldOfLoad(mv); f != nil {
+				if base := fieldBaseType(mv); base == ai {
+					if u, ok := mv.(*ssa.UnOp); ok {
+						if fa, ok := u.X.(*ssa.FieldAddr); ok {
+							b := sy.InCtx(mc, fa.X)
+							if b != nil && !isCallSym(b, "NewAuditInfo") {
+								b = e.fsym().InCtx(mc, fa.X)
+							}
+							if b != nil && isCallSym(b, "NewAuditInfo") && b.Val == recNode.Instr.(ssa.Value) {
+								upds = append(upds, upd{n, f.Name(), sy.InCtx(n.Ctx, x.Key), sy.InCtx(n.Ctx, x.Value)})
+							}
 						}
 					}
 				}
@@ -393,26 +402,11 @@ func c10(e *Env) {
 	// ---- R4 tags
 	e.c10Tags()
 	// ---- R5 the record is complete before it is serialised for the first output
-	ob5 := r.Ob("R5", "audit-builder:complete≺first-write", "every field / map entry of the task's record is set before the record is written for any output: no update of the record is reachable from an audit-file write (all outputs of a task share one record, so each of their audit files must show all of it)")
-	isMarshal := func(n *core.Node) bool {
-		return n.Kind != core.KAfter && !inCallback(n) && (n.IsCallTo("encoding/json.MarshalIndent", "encoding/json.Marshal", "(*encoding/json.Encoder).Encode") || (isWriteFile(n) && isCallSym(e.argSym(n, 0), fnAuditPath)))
-	}
-	nW := 0
-	for _, w := range g.Select(isMarshal) {
-		nW++
-		reach := g.ReachableFrom(w, nil)
-		bad := ""
-		for _, u := range upds {
-			if reach[u.n] {
-				bad = "AuditInfo." + u.field + " at " + g.Where(u.n)
-				break
-			}
-		}
-		ob5.Check(bad == "", g.Where(w), "no record update after this write", "the record is still updated ("+bad+") after it has been written for an output: the audit file of an earlier output lacks what is added later (e.g. OutFiles entries of its sibling outputs), and which file is incomplete depends on map iteration order")
-	}
-	if nW == 0 {
-		ob5.Unknown("-", "no marshal/write of the audit record found")
-	}
+	e.recordCompleteBeforeWrite("R5")
+	// ---- R7 shared with C03.R3 / C11.R4: every finalised output has its record on disk
+	e.auditBeforeRename("R7", "Execute:auditWrite≺rename")
+	// ---- R8 one record (one ID) per task execution
+	e.oneRecordPerTask("R8")
 	// ---- R6 the record is attached before the IP is published (shared with C17.R5)
 	e.recordBeforePublish("R6")
 }
@@ -595,7 +589,18 @@ func (e *Env) upstreamRule(rule string) {
 			if strings.Contains(gd, "."+e.joinFlagName()) {
 				// the join flag decides which of the two ways applies - with the right polarity: members when it is
 				// set, the in-IP itself when it is not
-				neg := strings.HasPrefix(gd, "!")
+				neg := false
+				for rest := gd; ; {
+					if strings.HasPrefix(rest, "!") {
+						neg, rest = !neg, rest[1:]
+						continue
+					}
+					if strings.HasPrefix(rest, "op!(") {
+						neg, rest = !neg, rest[4:]
+						continue
+					}
+					break
+				}
 				if (isJoin && neg) || (!isJoin && !neg) {
 					badGuard = gd + " (polarity: the members of a sub-stream are linked for joined ports, the in-IP itself for all others)"
 				}
@@ -622,4 +627,58 @@ func (e *Env) upstreamRule(rule string) {
 			ob("Upstream(join)", "Upstream for the members of joined sub-streams").Fail(core.FuncName(bfn), "the members of a joined sub-stream are not recorded as upstream")
 		}
 	}
+}
+
+// recordCompleteBeforeWrite (C10.R5, shared as C11.R5): no update of the task's record is reachable from a write of the
+// record: all outputs of a task share one record, so what is added after the first output's audit file was written is
+// missing from that file - and a resumed run reads exactly that file.
+func (e *Env) recordCompleteBeforeWrite(rule string) {
+	r := e.R
+	sp := e.spine()
+	if sp == nil {
+		return
+	}
+	g := sp.g
+	upds := e.recordUpdates()
+	ob5 := r.Ob(rule, "audit-builder:complete≺first-write", "every field / map entry of the task's record is set before the record is written for any output: no update of the record is reachable from an audit-file write (all outputs of a task share one record, so each of their audit files must show all of it)")
+	isMarshal := func(n *core.Node) bool {
+		return n.Kind != core.KAfter && !inCallback(n) && (n.IsCallTo("encoding/json.MarshalIndent", "encoding/json.Marshal", "(*encoding/json.Encoder).Encode") || (isWriteFile(n) && isCallSym(e.argSym(n, 0), fnAuditPath)))
+	}
+	nW := 0
+	for _, w := range g.Select(isMarshal) {
+		nW++
+		reach := g.ReachableFrom(w, nil)
+		bad := ""
+		for _, u := range upds {
+			if reach[u.n] {
+				bad = "AuditInfo." + u.field + " at " + g.Where(u.n)
+				break
+			}
+		}
+		ob5.Check(bad == "", g.Where(w), "no record update after this write", "the record is still updated ("+bad+") after it has been written for an output: the audit file of an earlier output lacks what is added later (e.g. OutFiles entries of its sibling outputs), and which file is incomplete depends on map iteration order")
+	}
+	if nW == 0 {
+		ob5.Unknown("-", "no marshal/write of the audit record found")
+	}
+}
+
+// oneRecordPerTask (C10.R8, shared as C20.R6): all outputs of one task execution carry ONE audit record - created once,
+// outside the loop over the out-IPs. The report converters list a task once because its outputs share the record's ID;
+// a record per output gives the same execution several IDs and it is listed once per output that lies in the lineage.
+func (e *Env) oneRecordPerTask(rule string) {
+	ob := e.R.Ob(rule, "audit-builder:one-record-per-task", "the audit record of a task execution is created once (not once per output): all its outputs share one record and one ID")
+	sp := e.spine()
+	rn := e.auditRecordNode()
+	if sp == nil || rn == nil {
+		ob.Unknown("-", "audit builder / NewAuditInfo call not found")
+		return
+	}
+	g := sp.g
+	for _, la := range iterLoops(g, rn) {
+		if strings.Contains(e.loopCollection(g, la), ".OutIPs") {
+			ob.Fail(g.Where(rn), "NewAuditInfo is called inside the loop over the task's out-IPs: every output gets a record with its own random ID, so a multi-output task is listed several times by audit2html/tex/bash, and tags or out-files of siblings are not shared")
+			return
+		}
+	}
+	ob.OK(g.Where(rn), "created once per task execution, outside the loop over the out-IPs")
 }
